@@ -61,7 +61,7 @@ def histories(tier: str):
     names = ["constrained_primitives"] if tier == "quick" else ["constrained_primitives", "deep_class_hierarchy", "enum", "list_of_classes", "list_of_constrained_primitives", "list_of_enums", "list_of_primitives", "primitive_types"]
     for name, text, snippets in c22_models.repo_models(pathlib.Path(REPO), names):
         for t in genlib.TARGETS:
-            if tier == "quick" and t not in ("jsonschema", "python", "xsd"):
+            if t not in (("jsonschema", "python", "xsd") if tier == "quick" else ("csharp", "jsonschema", "python", "xsd")):
                 continue
             if t in snippets:
                 out.append((name, text, t, snippets[t]))
